@@ -821,6 +821,7 @@ def plan(prop, tier, seed, known):
             jobs.append({"name": "lin%d" % i, "kind": "lin",
                          "driver": ["conc", "-seed", str(seed * 100 + 70 + i), "-segs", "10" if q else "40", "-steps", "10",
                                     "-clients", str(2 + i % 3), "-avoid", av]})
+        jobs += commitwin_jobs(q, ["C04"])   # concurrent commits sharing bitmap bytes, then a crash: the recovered structure
         for i in range(2 if q else 16):   # crash images of concurrent runs (incl. images taken while a large file is being freed)
             jobs.append(conccrash_job("conccrash%d" % i, seed * 100 + 80 + i, 2 + i % 3, 3 if q else 6, 6 if q else 8, av, 60 if q else 150, 2 if q else 4))
     elif prop == "C05":
@@ -862,6 +863,7 @@ def plan(prop, tier, seed, known):
             jobs.append(crash_job("crashbig%d" % i, seed * 100 + 50 + i, "crashbig", 1, 12 if q else 20, av, disk=3400,
                                   extra=["-loss", "1", "-cont", "2", "-nested", "1", "-stride", "3" if q else "1"]))
         jobs.append(probe_job(prop, av))
+        jobs += commitwin_jobs(q, ["C01"])
         for i in range(2 if q else 16):   # crash points inside concurrent histories (group commits of several clients' transactions)
             jobs.append(conccrash_job("conccrash%d" % i, seed * 100 + 95 + i, 2 + i % 3, 3 if q else 6, 6 if q else 8, av, 60 if q else 150, 2 if q else 4))
         jobs.append({"name": "Wal_MC", "kind": "mc", "module": "Wal.tla", "cfg": "Wal_MC.cfg"})
